@@ -117,6 +117,8 @@ def units_for(tier: str) -> List[Any]:
     for p in programs.linear_programs(1, ('S', 'Y1'), (), ('raise', 'killcmd')):
         for ev in ('excepted', 'killed'):
             units.append((p, (ev, 1, ('addl',))))
+    # the step commands in their rarer forms: Stop with either flag, the kill command without a message, None as a result
+    units += [(p, None) for p in programs.linear_programs(2, ('S', 'Y1'), ('cont', 'wait'), ('stop_t', 'stop_f', 'killcmd0', 'ret_none'))]
     return units
 
 
